@@ -265,6 +265,7 @@ Section Recall.
     assert (Hex : keeps_hist (edo st <- execute U cfg c2; match st with Proceed => main_loop U cfg f | Submit => eret tt end)).
     { apply kh_bind; [apply execute_keeps_history|]. intros st. destruct st; [apply IH|apply kh_ret]. }
     destruct c2; try exact Hex.
+    2:{ apply kh_bind; [apply kh_refresh_line|]. intros _. apply IH. }
     apply kh_bind; [apply kh_next_char|]. intros ch.
     apply kh_bind; [|intros; apply IH].
     unfold edit_insert. kh_display. kh_auto.
